@@ -149,10 +149,11 @@ def pure_world_globals():
     return {'T': T, 'P': P, 'R': R}
 
 
-def gen_pure(rnd):
-    """side-effect-free, definitely-assigned programs: conditions and trip counts are pure functions"""
+def gen_pure(rnd, mutation=False):
+    """side-effect-free (apart from writes to the argument objects m / o when mutation=True), definitely-assigned
+    programs: conditions and trip counts are pure functions"""
     opts = progs.Opts(loop_else=False, reads='safe', try_=False, with_=False, raise_=False, max_stmts=12,
-                      fresh_for_targets=True, nested_def=False)
+                      fresh_for_targets=True, nested_def=False, mutation=mutation, append=False)
     src = progs.gen_function(rnd, opts)
     src = re.sub(r'\bD\(', 'P(', src)
     src = re.sub(r'\bL\((\d+)\)', r'R(\1)', src)
@@ -212,7 +213,23 @@ def closure_programs(rnd):
     return out
 
 
-def run_pure(fn):
+class _Obj(object):
+    def __init__(self):
+        self.v = 7
+        self.u = 3
+
+
+def run_pure(fn, mutation=False):
+    if mutation:
+        m, o = [5, 6], _Obj()
+        holder = [o, m]            # the caller's alias: how the mutation is observed afterwards
+        try:
+            r = fn(1, 2, 3, m, o)
+            return ('return', repr(r), repr(holder[1]), holder[0].v, holder[0].u)
+        except RecursionError:
+            return ('raise', 'RecursionError')
+        except BaseException as e:  # noqa
+            return ('raise', convrun.canon_exc(type(e).__name__), repr(holder[1]), holder[0].v, holder[0].u)
     try:
         return ('return', repr(fn(1, 2, 3)))
     except RecursionError:
@@ -260,7 +277,7 @@ def check(run):
     from malt.impl import api
     failures = []
     nprog = 150 if quick else 2000
-    srcs = closure_programs(rnd) + [gen_pure(rnd) for _ in range(nprog)]
+    srcs = closure_programs(rnd) + [gen_pure(rnd, mutation=(i % 3 == 0)) for i in range(nprog)]
     cdir = os.path.join(vlib.ROOT, 'corpus', 'C02')
     csrcs = []
     if os.path.isdir(cdir):
@@ -284,8 +301,9 @@ def check(run):
                 failures.append(('conversion failed with %s: %s' % (type(e).__name__, str(e)[:160]), src))
                 continue
             before = tr.backend.calls
-            a = run_pure(f)
-            b = run_pure(g)
+            mut = 'm, o' in src.split('\n')[0]
+            a = run_pure(f, mut)
+            b = run_pure(g, mut)
             run.count()
             ncalls = tr.backend.calls - before
             if ncalls >= 2:
@@ -329,7 +347,8 @@ def replay(path):
         mod = convrun.load_module([src])
         mod.__dict__.update(pure_world_globals())
         g = api.to_graph(mod.f0, recursive=False)
-        a, b = run_pure(mod.f0), run_pure(g)
+        mut = 'm, o' in src.split('\n')[0]
+        a, b = run_pure(mod.f0, mut), run_pure(g, mut)
         print(src)
         print('original', a, 'converted under tracing backend', b)
         return 0 if a == b or a[0] == 'raise' else 1
